@@ -34,6 +34,10 @@ for d in sorted(glob.glob(os.path.join(ROOT, "seeded", "C*-*"))):
     flush()
     edits = [e for e in edits if e["old"] != e["new"]]
     meta = json.load(open(os.path.join(d, "meta.json")))
+    if not meta.get("target_check_detects"):
+        # not (yet) reported by the check of the property it was aimed at: listed in DESIGN.md 7.1,
+        # and not part of the self-validation catalogue (which demands a report)
+        continue
     out.append({"id": "seeded-" + sid, "prop": prop, "edits": edits, "expect": "", "clause": meta.get("clause", "")})
 json.dump(out, open(os.path.join(ROOT, "selfcheck", "seeded.json"), "w"), indent=1)
 print("mutants:", len(out))
